@@ -4,6 +4,18 @@ import itertools, json, warnings
 
 from .common import Ctx, Driver
 
+MANIFEST = dict(
+    text=("Lean theorems: for every registration history of feature sets and every request list, the code-mirror of "
+          "TreeBuilderRegistry.register/lookup computes the documented choice (lookup_spec), with its meaning spelled out "
+          "(lookup_some_meaning, lookup_none_iff, unoffered_ignored, lookup_no_features, default_falls_back) and the constructor "
+          "decision (fnf_iff_none, explicit_builder_bypasses, kwargs_forwarded); plus kernel-decided obligations over the shipped "
+          "registry generated from the live code. Tie: exhaustive correspondence of the real registry with the Lean mirror and spec "
+          "over all histories of <=3 (thorough <=4) builders x all request lists <=3, and the real constructor against a private registry."),
+    design="7/C20",
+    note="Feature lists without repeats (true of every shipped builder). Constructor cases swap a private registry in for bs4.builder_registry.",
+    technique="Lean 4 refinement proof (code-mirror = spec) + exhaustive small-scope correspondence with the real registry",
+)
+
 
 def spec_lookup(regs, req):
     """The property statement, directly. regs = registration history (oldest first) of feature sets."""
